@@ -45,6 +45,11 @@ def run(tier, seed):
     rs = E.run_etsim([0, 4, 8, 12], [1, 2], [4], 3, lays, [1, 2])
     run.add_tlc(rs, "ETSim: <=3 restarts, overlapping ranges, 4 layouts, 1-2 levels, exhaustive")
     sims = [p for p in rs.printed if "restarts" in p]
+    mixed_reqs = E.DEFAULT_REQUESTS + [{"it": [6], "vars": ["alpha"], "rl": 0, "restart": -1}, {"it": [2, 6, 10], "vars": ["betaup3"], "rl": 0, "restart": -1},
+                                       {"it": [6, 8], "vars": ["alpha"], "rl": 1, "restart": -1}]
+    rsm = E.run_etsim([0, 4], [2, 4], [2, 4], 2, lays, [1, 2], requests=mixed_reqs)
+    run.add_tlc(rsm, "ETSim: 2 restarts written with different output strides (2 and 4), overlapping, exhaustive")
+    sims += [p for p in rsm.printed if "restarts" in p]
     if tier == "thorough":
         rs2 = E.run_etsim([0, 4, 8, 12, 16], [1, 2, 3], [4], 4, lays, [1, 2], simulate=40, seed=seed + 2)
         run.add_tlc(rs2, "ETSim: <=4 restarts simulated")
@@ -70,7 +75,7 @@ def run(tier, seed):
                 "read through generated CarpetIOHDF5-shaped directories in the four layouts; every ETSim state (restart sequences with overlapping "
                 "iteration ranges, levels, layouts) is materialised and every admissible request compared bit-for-bit with the spec's Truth / "
                 "serving restart / order / times. Non-trivial = >= 2 chunks or >= 2 restarts")
-    run.assumptions = ["ghost width >= 1", "all restarts of a simulation use the same output stride (mixed strides are explored in thorough only)",
+    run.assumptions = ["ghost width >= 1", "output strides 2 and 4, possibly different between restarts",
                        "array values encode (variable, restart, iteration, level, x, y, z)"]
     return run.finish()
 
